@@ -10,6 +10,9 @@ Decided:
   R03.5  gate stability: state read by the gate through a loop-invariant root must not be written by
          the booking loop before the last member is booked
   R03.6  bookResource books only under the availability and task-limit facts for the same slot
+  R03.7  the stop condition is exactly doneEffort >= effort (tolerance of at most half a second accepted)
+  R03.8  the effort credited for a slot is pure arithmetic over the booked seconds and the efficiency:
+         no rounding / truncation call on the way from book() to doneEffort
 Not decided: sum = effort to one second (float rounding).
 """
 from __future__ import annotations
@@ -31,6 +34,29 @@ META = {
                    "versus what the gate reads.",
     "assumptions": [],
 }
+
+
+def booking_guard_rule(ctx: Ctx, rid: str):
+    """bookResource books only under the availability and task-limit facts for the same slot (C03 R03.6 / C05 R05.8 / C07)."""
+    br = ctx.repo.func("TaskScenario.bookResource")
+    fb = facts_of(br)
+    gb = cfg_of(br)
+    n = 0
+    for c in own_nodes(br):
+        if isinstance(c, ast.Call) and isinstance(c.func, ast.Attribute) and c.func.attr == "book" and c.args:
+            node = gb.node_containing(c)
+            slot_txt = norm(c.args[0])
+            recv = norm(c.func.value)
+            a = fb.holds(node, lambda t, p: p and t == f"{recv}.available({slot_txt})")
+            b = fb.holds(node, lambda t, p: p and t.startswith(f"self.limitsOk({slot_txt}, resource"))
+            n += 1
+            ctx.ob(rid, f"{br.qual}: {norm(c)}", (br, c), a is not None and b is not None,
+                   "booked only when the resource is available and the task limits allow the slot for this resource" if (a and b) else
+                   f"book() is reached without the availability fact ({a is not None}) or the task-limit fact for this slot and "
+                   f"resource ({b is not None})",
+                   key=key_of(rid, br, c))
+    if not n:
+        raise AnchorMissing("bookResource: call of ResourceScenario.book not found")
 
 
 def run(ctx: Ctx):
@@ -71,6 +97,22 @@ def run(ctx: Ctx):
             ctx.ob("R03.1", f"{brs.qual}: gate condition {t}", (brs, gl), ok,
                    "gate runs for effort tasks with more than one member" if ok else "gate condition no longer covers every team of an effort task",
                    key=key_of("R03.1", brs, None, "gate condition"))
+        # the gate asks, for EVERY member, both questions for the same slot: available(slot) and limitsOk(slot, member)
+        for gl in gates:
+            lv = gl.target.id if isinstance(gl.target, ast.Name) else None
+            av = [x for x in ast.walk(gl) if isinstance(x, ast.Call) and isinstance(x.func, ast.Attribute) and x.func.attr == "available"]
+            lim = [x for x in ast.walk(gl) if isinstance(x, ast.Call) and isinstance(x.func, ast.Attribute) and x.func.attr == "limitsOk"]
+            per_member = [x for x in lim if len(x.args) >= 2 and isinstance(x.args[1], ast.Name) and x.args[1].id == lv
+                          or any(k.arg == "resource" and isinstance(k.value, ast.Name) and k.value.id == lv for k in x.keywords)]
+            same_slot = bool(per_member) and bool(av) and all(
+                x.args and norm(x.args[0]) == norm(av[0].args[0]) for x in per_member + av if x.args)
+            ok = bool(per_member) and same_slot
+            ctx.ob("R03.1", f"{brs.qual}: gate loop asks limitsOk(slot, {lv}) per member", (brs, gl), ok,
+                   "the gate evaluates the task limits for every member (limits restricted to one resource are seen) and for the "
+                   "slot it tested for availability" if ok else
+                   "the team gate does not call limitsOk(slot, member) for each member inside the gate loop: a task limit "
+                   "restricted to one member does not hold the whole team back, so members are booked for different instants",
+                   key=key_of("R03.1", brs, None, "gate per-member limits"))
     # failing gate leaves the function
     for n in own_nodes(brs):
         if isinstance(n, ast.If) and norm(n.test) == "not all_available":
@@ -166,20 +208,29 @@ def run(ctx: Ctx):
            key="R03.5|TaskScenario.bookResources|task-limit counters")
 
     # ---------------------------------------------------------------- R03.6
-    fb = facts_of(br)
-    gb = cfg_of(br)
-    for c in own_nodes(br):
-        if isinstance(c, ast.Call) and isinstance(c.func, ast.Attribute) and c.func.attr == "book" and c.args:
-            node = gb.node_containing(c)
-            slot_txt = norm(c.args[0])
-            recv = norm(c.func.value)
-            a = fb.holds(node, lambda t, p: p and t == f"{recv}.available({slot_txt})")
-            b = fb.holds(node, lambda t, p: p and t.startswith(f"self.limitsOk({slot_txt}"))
-            ctx.ob("R03.6", f"{br.qual}: {norm(c)}", (br, c), a is not None and b is not None,
-                   "booked only when the resource is available and the task limits allow the slot" if (a and b) else
-                   f"book() is reached without the availability fact ({a is not None}) or the task-limit fact ({b is not None}) for the same slot",
-                   key=key_of("R03.6", br, c))
-    ctx.floor("R03.1", 4)
+    booking_guard_rule(ctx, "R03.6")
+    # ---------------------------------------------------------------- R03.8 credited effort is not rounded
+    ROUNDERS = {"round", "int", "floor", "ceil", "trunc", "quantize", "rint", "divmod"}
+    chain = [brs, br, repo.func("ResourceScenario.book"), repo.func("ResourceScenario.getAvailableSecondsInSlot")]
+    for fn in chain:
+        if fn is brs:
+            atoms = set()
+            for a, _n, _t in heap_writes(ctx, brs, "doneEffort"):
+                atoms |= data(a)
+        else:
+            atoms = data(ctx.dep.summary(fn).ret)
+        bad = sorted(a[5:] for a in atoms if a.startswith("call:") and a[5:] in ROUNDERS)
+        ctx.ob("R03.8", f"{fn.qual}: effort value passes through {bad or 'no rounding call'}", fn, not bad,
+               "the credited effort is seconds / 3600 x efficiency, unrounded" if not bad else
+               f"the effort credited per slot passes through {', '.join(bad)}(): the per-slot rounding error accumulates over the "
+               "slots of a long task, so the booked time no longer adds up to the requested effort",
+               key=key_of("R03.8", fn, None, "rounding " + ",".join(bad)))
+    ctx.floor("R03.8", 4)
+    # ---------------------------------------------------------------- R03.7 completion test (shared with C06 R06.5)
+    from .c06 import completion_test_rule
+    completion_test_rule(ctx, "R03.7")
+    ctx.floor("R03.7", 1)
+    ctx.floor("R03.1", 5)
     ctx.floor("R03.2", 5)
     ctx.floor("R03.3", 1)
     ctx.floor("R03.6", 1)
